@@ -55,6 +55,14 @@ func ruleRevOrder(c *Ctx) []Obligation {
 			return f != nil && f.Name() == "RevisionDate"
 		})
 	}
+	// the two lookups may sit in a helper that is handed the table and both keys and answers with the exact
+	// revision if it is filed, with the bare name otherwise (called once before and once after the disk read)
+	if len(looks) < 2 && len(reads) > 0 {
+		if dobs := c.revOrderDelegate(fm, reads, isRevKey); dobs != nil {
+			obs = append(obs, dobs...)
+			return c.revOrderAdd(obs)
+		}
+	}
 	var first, second *ssa.Lookup
 	for _, l := range looks {
 		if len(reads) > 0 && !dominates(l, reads[0]) {
@@ -202,6 +210,13 @@ func ruleRevOrder(c *Ctx) []Obligation {
 			}
 		}
 	}
+	return c.revOrderAdd(obs)
+}
+
+// revOrderAdd: the clauses of REV.ORDER about Modules.add.
+func (c *Ctx) revOrderAdd(obs []Obligation) []Obligation {
+	const R = "REV.ORDER"
+	var con string
 	// add
 	add := c.MustFn("yang.(*Modules).add")
 	var full, bare *ssa.MapUpdate
@@ -1004,6 +1019,177 @@ func ruleIDKey(c *Ctx) []Obligation {
 	}
 	if nW == 0 || nR == 0 {
 		obs = append(obs, undecided(R, "identity dictionary accesses", "-", fmt.Sprintf("%d writes, %d reads found", nW, nR)))
+	}
+	return obs
+}
+
+// revOrderDelegate: FindModule looks modules up through a helper H(table, exactKey, bareKey) that returns
+// table[exactKey] when it is there and table[bareKey] otherwise. The clauses of REV.ORDER about the order of lookups
+// are then: H prefers the exact key; a call of H stands in front of the disk read with the exact key built from the
+// statement's revision-date and its non-nil answer is returned at once; another call follows the read and its answer
+// is what FindModule returns.
+func (c *Ctx) revOrderDelegate(fm *ssa.Function, reads []ssa.CallInstruction, isRevKey func(ssa.Value) bool) []Obligation {
+	const R = "REV.ORDER"
+	var helper *ssa.Function
+	var sites []*ssa.Call
+	eachInstr(fm, func(in ssa.Instruction) {
+		call, isC := in.(*ssa.Call)
+		if !isC {
+			return
+		}
+		cal := call.Call.StaticCallee()
+		if cal == nil || !c.isRepoFn(cal) || cal.Blocks == nil || cal == fm {
+			return
+		}
+		var lks []*ssa.Lookup
+		eachInstr(cal, func(in2 ssa.Instruction) {
+			if l, isL := in2.(*ssa.Lookup); isL {
+				if _, isMap := l.X.Type().Underlying().(*types.Map); isMap {
+					lks = append(lks, l)
+				}
+			}
+		})
+		if len(lks) != 2 {
+			return
+		}
+		if helper == nil || helper == cal {
+			helper = cal
+			sites = append(sites, call)
+		}
+	})
+	if helper == nil || len(sites) < 2 {
+		return nil
+	}
+	var lks []*ssa.Lookup
+	eachInstr(helper, func(in ssa.Instruction) {
+		if l, isL := in.(*ssa.Lookup); isL {
+			lks = append(lks, l)
+		}
+	})
+	p1, isP1 := lks[0].Index.(*ssa.Parameter)
+	p2, isP2 := lks[1].Index.(*ssa.Parameter)
+	if !isP1 || !isP2 || !dominates(lks[0], lks[1]) {
+		return nil
+	}
+	i1, i2 := paramIndex(helper, p1), paramIndex(helper, p2)
+	// H returns the first answer when it is non-nil, the second otherwise
+	firstReturned, secondLast := false, false
+	for _, b := range helper.Blocks {
+		rt, isR := b.Instrs[len(b.Instrs)-1].(*ssa.Return)
+		if !isR || len(rt.Results) != 1 {
+			continue
+		}
+		switch rt.Results[0] {
+		case ssa.Value(lks[0]):
+			for _, g := range guardsAt(b) {
+				if x, isEq, okn := nilTest(g.Cond); okn && x == ssa.Value(lks[0]) && isEq != g.Branch {
+					firstReturned = true
+				}
+			}
+		case ssa.Value(lks[1]):
+			secondLast = true
+		}
+	}
+	var obs []Obligation
+	con := "FindModule: exact revision is looked up before the bare name, both before reading from disk"
+	var pre, post *ssa.Call
+	for _, sc := range sites {
+		if dominates(sc, reads[0].(ssa.Instruction)) {
+			pre = sc
+		} else {
+			post = sc
+		}
+	}
+	switch {
+	case pre == nil || post == nil || i1 < 0 || i2 < 0:
+		return nil
+	case !firstReturned || !secondLast:
+		obs = append(obs, bad(R, con, c.Pos(helper.Pos()), c.FnName(helper)+" does not answer with the entry under its first key when it is there and with the one under its second key otherwise"))
+	case !isRevKey(pre.Call.Args[i1]) || isRevKey(pre.Call.Args[i2]):
+		obs = append(obs, bad(R, con, c.InstrPos(pre), "the lookup helper is not handed the exact-revision key first and the bare name second: an import with revision-date would bind to the latest revision"))
+	default:
+		// the answer of the call in front of the read is returned at once when it is there
+		early := false
+		for _, b := range fm.Blocks {
+			rt, isR := b.Instrs[len(b.Instrs)-1].(*ssa.Return)
+			if isR && len(rt.Results) == 1 && rt.Results[0] == ssa.Value(pre) && !dominates(reads[0].(ssa.Instruction), rt) {
+				early = true
+			}
+		}
+		if early {
+			obs = append(obs, ok(R, con, c.InstrPos(pre), c.FnName(helper)+"(m, name@rev, name) → return when found; then Read"))
+		} else {
+			obs = append(obs, bad(R, con, c.InstrPos(pre), "a found module is not returned at once"))
+		}
+	}
+	for _, tn := range []string{"Include", "Import"} {
+		named := c.Named("yang", tn)
+		con := fmt.Sprintf("FindModule: the exact-revision key of an *%s is built from its own revision-date", tn)
+		built := false
+		backSliceAll(pre.Call.Args[i1], func(x ssa.Value) {
+			bo, isB := x.(*ssa.BinOp)
+			if !isB || bo.Op != token.ADD {
+				return
+			}
+			if derivesFrom(bo.Y, func(y ssa.Value) bool {
+				owner, f, _ := fieldOf(y)
+				return f != nil && recordedFieldName(f) == "RevisionDate" && owner == named
+			}) {
+				built = true
+			}
+		})
+		if built {
+			obs = append(obs, ok(R, con, c.InstrPos(pre), "name + \"@\" + RevisionDate.Name reaches the exact-revision key"))
+		} else {
+			obs = append(obs, bad(R, con, c.InstrPos(pre), "no key built from the revision-date of an *"+tn+" reaches the exact-revision lookup"))
+		}
+	}
+	// the disk read order
+	{
+		con := "FindModule: the disk is asked for the exact revision first, for the bare name only when that fails"
+		var firstRead ssa.CallInstruction
+		for _, r := range reads {
+			if firstRead == nil || dominates(r.(ssa.Instruction), firstRead.(ssa.Instruction)) {
+				firstRead = r
+			}
+		}
+		arg := firstRead.Common().Args[len(firstRead.Common().Args)-1]
+		if !isRevKey(arg) {
+			obs = append(obs, bad(R, con, c.InstrPos(firstRead.(ssa.Instruction)), "the first read from disk does not ask for name@revision-date"))
+		} else {
+			okFall := true
+			for _, r := range reads {
+				if r == firstRead {
+					continue
+				}
+				under := false
+				for _, g := range guardsAt(r.Block()) {
+					if x, isEq, okn := nilTest(g.Cond); okn && x == firstRead.Value() && isEq != g.Branch {
+						under = true
+					}
+				}
+				if !under || isRevKey(r.Common().Args[len(r.Common().Args)-1]) {
+					okFall = false
+				}
+			}
+			if okFall {
+				obs = append(obs, ok(R, con, c.InstrPos(firstRead.(ssa.Instruction)), "Read(name@rev); on error Read(name)"))
+			} else {
+				obs = append(obs, bad(R, con, c.InstrPos(firstRead.(ssa.Instruction)), "a second read is not the bare-name fall-back of a failed exact read"))
+			}
+		}
+	}
+	con = "FindModule: after reading from disk the exact revision is returned when it is there, the bare name only otherwise"
+	postReturned := false
+	for _, r := range refsOf(post) {
+		if _, isR := r.(*ssa.Return); isR {
+			postReturned = true
+		}
+	}
+	if postReturned && isRevKey(post.Call.Args[i1]) && !isRevKey(post.Call.Args[i2]) {
+		obs = append(obs, ok(R, con, c.InstrPos(post), "return "+c.FnName(helper)+"(m, name@rev, name)"))
+	} else {
+		obs = append(obs, bad(R, con, c.InstrPos(post), "the lookup after the disk read is not the exact-then-bare lookup, or its answer is not what FindModule returns"))
 	}
 	return obs
 }
